@@ -285,6 +285,43 @@ def const_forms_part(check):
             return
 
 
+def multi_crate_part(check):
+    """folder mode in-process (parse -> merge -> reconcile -> generate, all six back ends) over workspaces in which crates share type
+    names: renamed in one crate and not in another, imported by `use`, by glob, by a qualified path or not at all, re-exported through a
+    crate that is not part of the run - the cross-crate look-ups of reconcile / used_imports must answer with output or an error"""
+    import c06
+    rng = check.rng
+    reqs, meta = [], []
+    g = Gen(rng)
+    for k in range(48 if check.thorough else 16):
+        shape = c06.AMBIG_SHAPES[k % len(c06.AMBIG_SHAPES)]
+        nprov = rng.choice([2, 2, 3])
+        files, info = c06.ambiguous_workspace(rng, k, shape, nprov, rng.randint(0, nprov))
+        if k % 4 == 3:
+            # a consumer that uses the shared name without naming any crate, and one that imports by glob
+            word = info["type"]
+            ts = [m_path("typeshare")]
+            files.append(dict(rel="loner/src/lib.rs", crate="loner", file={"attrs": [], "items": [
+                {"kind": "struct", "attrs": list(ts), "ident": word, "generics": [], "fields": ("named", [field([], "own", t_path("u8"))])},
+                {"kind": "struct", "attrs": list(ts), "ident": "LonerUser", "generics": [], "fields": ("named", [field([], "x", t_path(word))])}]}))
+            files.append(dict(rel="globber/src/lib.rs", crate="globber", file={"attrs": [], "items": [
+                {"kind": "use", "tree": ("upath", info["providers"][0].replace("-", "_"), ("uglob",))},
+                {"kind": "struct", "attrs": list(ts), "ident": "GlobUser", "generics": [], "fields": ("named", [field([], "x", t_path("Vec", [t_path(word)]))])}]}))
+        jobs = [{"crate": f["crate"], "file_name": "x", "path": "ws/" + f["rel"], "file": f["file"]} for f in files]
+        for lang in LANGS:
+            cfg = {"package": "proto" if lang == "go" else "com.example", "type_mappings": {}}
+            _, rreq, texts = l2.requests(lang, cfg, jobs, g, multi_file=True)
+            reqs.append(rreq)
+            meta.append((lang, shape, texts))
+    for (lang, shape, texts), a in zip(meta, runner(reqs)):
+        check.saw(("multi-crate", lang, shape, "|".join(texts)), nontrivial=True)
+        check.count("multi-crate-%s" % ("panic" if "panic" in a else "ok" if "ok" in a else "error"))
+        if "panic" in a:
+            check.violation("%s folder mode panics at %s (crates sharing a type name, shape %s)" % (lang, a["panic"], shape),
+                            case={"lang": lang, "sources": texts}, impl=a, failing_input=True)
+            return
+
+
 def big_tree_part(check):
     """source trees much larger than the walker's bounded result channel (100): every file yields a result; with and
     without item errors; single- and multi-file mode; several walker thread counts"""
@@ -402,6 +439,8 @@ def run(check):
         entry_points_part(check)
     if not check.has_failing():
         error_among_many_part(check)
+    if not check.has_failing():
+        multi_crate_part(check)
     if not check.has_failing():
         odd_attrs_part(check)
     if not check.has_failing():
